@@ -57,6 +57,9 @@ def make_models():
     from .plug_hdf import HdfCacheModels  # C05/C11: cache-file entry groups, dataset attributes, abstract scipy sparse arrays (gated on its own objects / module _hdf5_file_singleton)
 
     m.plugins.insert(0, HdfCacheModels())
+    from .plug_hdf import HdfCacheFileModels  # C05/C11: the whole cache file behind HDF5FileSingleton.__file (gated on its own objects / module _hdf5_file_singleton)
+
+    m.plugins.insert(0, HdfCacheFileModels())
     from .plug_c01 import C01Models  # C01: abstract CSR matrices, record-model constructors, small Python features (gated on `c01 = True` contracts / own heap objects)
 
     m.plugins.insert(0, C01Models())
@@ -69,6 +72,15 @@ def make_models():
     from .plug_c09 import C09Models  # C09: chains (optional tuples, CouplingStructure constructor model, discipline.jac ghost dictionary, sums of blocks; gated on `c09_chains = True`)
 
     m.plugins.insert(0, C09Models())
+    from .plug_c14 import C14Models  # C14: kwargs with a known key set, hstack of lists, linspace/newaxis/where(mask), str(int) (gated on `c14 = True` contracts / own heap objects)
+
+    m.plugins.insert(0, C14Models())
+    from .plug_c03 import C03Models  # C03: driver execute (bound methods as values, list.remove, exception-typed parameters, assumed **settings summaries; gated on `c03 = True`)
+
+    m.plugins.insert(0, C03Models())
+    from .plug_c18 import C18Models  # C18: diag / x @ diag / tile / column statistics / list reversal (hooks gated on `c18 = True` contracts)
+
+    m.plugins.insert(0, C18Models())
     return m
 
 
